@@ -29,6 +29,15 @@ func faultExpr(r *core.Rng, class int) (ast.Node, string) {
 	case 0:
 		return ast.Binary{Op: []string{"/", "%"}[r.Intn(2)], L: il(int64(r.Intn(50))), R: il(0)}, "zerodiv"
 	case 1:
+		switch r.Intn(4) {
+		case 0: // a two-bound slice past the end of an array / of a string, or with its bounds crossed
+			return ast.Slice{X: ast.ArrayLit{Elems: []ast.Node{one, one, one}}, I: il(int64(r.Range(0, 3))), J: il(int64(r.Range(4, 9)))}, "index"
+		case 1:
+			if r.Chance(1, 2) {
+				return ast.Slice{X: ast.StrLit{V: "abc"}, I: il(int64(r.Range(0, 3))), J: il(int64(r.Range(4, 9)))}, "index"
+			}
+			return ast.Slice{X: ast.ArrayLit{Elems: []ast.Node{one, one, one}}, I: il(2), J: il(1)}, "index"
+		}
 		return ast.Index{X: ast.ArrayLit{Elems: []ast.Node{one, one}}, I: il(int64(r.Range(2, 9)))}, "index"
 	case 2:
 		return ast.Binary{Op: "+", L: il(3), R: ast.StrLit{V: "s"}}, "type"
